@@ -215,6 +215,21 @@ theorem C03_faithful_delivery (e : Ep) (a : Nat) (p : Sealed)
     · exact absurd hmt hm
     · exact absurd hmt hm
 
+/-! ### confidentiality of the wire format -/
+
+/-- what an observer of the wire learns from a datagram without the key: its length and the public
+header (type byte, reserved bytes, session identifier, counter) -/
+def DG.publicView (d : DG) : Nat × Nat × Bool × Option Nat × Nat := (d.len, d.mt, d.rsvOk, d.sid, d.ctr)
+
+/-- **C03 (f).** Two sealings that differ only in the *content* of what they carry (same session,
+direction, counter, type and payload length) look the same on the wire: application data appears
+only inside the sealing.  (That the sealing itself hides it is SANSE's confidentiality — assumed;
+the observable counterpart is the `scan` of every emitted datagram in the correspondence run.) -/
+theorem C03_wire_hides_payload (p q : Sealed) (hs : p.sess = q.sess) (hc : p.ctr = q.ctr)
+    (hm : p.mt = q.mt) (hl : p.pay.len = q.pay.len) :
+    (wire p).publicView = (wire q).publicView := by
+  simp [wire, DG.publicView, hs, hc, hm, hl]
+
 /-! ### non-vacuity -/
 
 private def p0 : Sealed := { sess := 0, dir := .c2s, ctr := 0, mt := mtTransport, pay := .data 1 0 10 }
